@@ -121,6 +121,13 @@ def gen_cases(out, explore):
         times[700] = 1000 + 50 * ntr + 500
         cases.append(dict(traces=traces, bs=rnd.choice([1, 1000]), order="seq", buf=0, times=times, durs={700: 0},
                           oseed=rnd.randrange(10**6)))
+    # a root page with more traces than SQLite's historical bound-parameter limit (999) under the default batch size:
+    # every trace has >= 2 spans, so a trace whose descendants went missing would show up as a new shape
+    for k in range(1 if quick else 4):
+        shapes = [(1, [(2, [])]), (1, [(3, [])]), (1, [(2, []), (3, [])]), (2, [(1, [(3, [])])])][:1 if k % 2 == 0 else 4]
+        ntr = rnd.choice([1003, 1100]) if k < 2 else rnd.choice([2005, 2500])
+        traces = [(j + 1, 1, shuffle_tree(rnd, rnd.choice(shapes))) for j in range(ntr)]
+        cases.append(dict(traces=traces, bs=1000, order="seq", buf=0, oseed=k, large=True))
     return cases, n_exh, n_rand
 
 
@@ -263,7 +270,9 @@ def run(out: common.Outcome, explore: int = 0) -> None:
                 bad.append((k, why, res[0]))
             items.append((case, nodes, res))
     shard = 60
-    files = [(f"S{k}", cases_v(items[k:k + shard])) for k in range(0, len(items), shard)]
+    n_small = sum(1 for it in items if not it[0].get("large"))      # large cases come last in gen_cases: one file each
+    files = [(f"S{k}", cases_v(items[k:k + shard])) for k in range(0, n_small, shard)] + \
+            [(f"S{k}", cases_v(items[k:k + 1])) for k in range(n_small, len(items))]
     res = common.coq_eval_many(files) if ok else []
     dis, coq_fail = [], []
     for (name, _), (okc, o) in zip(files, res):
@@ -294,7 +303,7 @@ def run(out: common.Outcome, explore: int = 0) -> None:
     out.coverage.update({
         "evaluations": len(cases), "distinct_nontrivial": len(keys),
         "rule": "exhaustive: ordered pairs of all ordered labelled trees with <= 3 (thorough: 4) nodes over 2 labels, under one and two "
-                "workflow names, batch sizes {1,(2),1000}; random: 2-12 traces drawn from a few base shapes with shuffled sibling "
+                "workflow names, batch sizes {1,(2),1000}; one (thorough: four) store of 1000-2500 two/three-span traces under batch size 1000; random: 2-12 traces drawn from a few base shapes with shuffled sibling "
                 "order plus unrelated trees, up to 12 spans, 1-3 names, batch sizes {1,2,3,1000}, sequential / reversed / span-level "
                 "interleaved ingestion; non-trivial = two traces of equal shape or a span with >= 2 children",
         "exhaustive_cases": n_exh, "random_cases": n_rand,
